@@ -182,7 +182,15 @@ class C19(Machine):
         sc = {"property": self.ID, "run_seed": run_seed, "tier": tier, "net": net, "config": None, "walk_seed": None, "reorder_seed": None, "ops_seed": run_seed, "params": {"len": prng.randint(2, 9), "hash_seeds": (HASH_SEEDS[: 2 if tier == "quick" else 3] if prng.random() < (0.6 if tier == "quick" else 0.75) else []), "other_seed": prng.randrange(1 << 30)}}
         if prng.random() < 0.3:
             sc["config"] = gen_knobs(prng, p=0.3)
-        if prng.random() < 0.15:
+        if prng.random() < 0.08:
+            # source-SCC scenario: independent feedback rings under random names, expanded by
+            # the source-SCC strategy, executed several more times in this process (component
+            # lists that come out of hash sets can differ from call to call)
+            sc["params"]["mode"] = "scc_repeat"
+            sc["config"] = None
+            sc["params"]["hash_seeds"] = HASH_SEEDS[:1] if prng.random() < 0.3 else []
+            sc["net"] = gen_network(sub_rng(run_seed, "net-rings"), {"rings": 1}, nmax=self.NMAX.get(tier, 6), fmts=self.FMTS, shuffle_order=True)
+        elif prng.random() < 0.15:
             # dead-branch scenario: a motif-avoidant core gated by constants (every node's
             # restricted Petri net is a small part of the network's net), expanded, then the
             # seeds of every node, always compared under other hash seeds
@@ -235,6 +243,11 @@ class C19(Machine):
                 rng.shuffle(ids)
             for i in ids[:14]:
                 seq.append({"op": "seeds", "node": w.space_of(i), "compute": True, "fallback": False})
+            return seq
+        if sc["params"].get("mode") == "scc_repeat":
+            seq = [{"op": "scc", "maa": rng.random() < 0.6}, {"op": "exp_seeds"}]
+            for op in seq:
+                w.apply(op)
             return seq
         if sc["params"].get("mode") == "deadpad":
             seq = [rng.choice([{"op": "bfs", "node": None, "level": None, "size": None}, {"op": "build"}, {"op": "dfs", "node": None, "stack": None, "size": None}])]
@@ -329,9 +342,17 @@ class C19(Machine):
         d = first_diff(ref_log, log_a)
         if d:
             vio.append(viol(self.ID, "differs_on_second_build_in_same_process", d[0], {"what": d[1], "op": ops[d[0] - 1] if 0 < d[0] <= len(ops) else None, "first": d[2], "second": d[3]}, "same_process"))
+        if not vio and sc["params"].get("mode") == "scc_repeat":
+            for _ in range(5):
+                log_a, _ = execute(sc, ops)
+                execs += 1
+                d = first_diff(ref_log, log_a)
+                if d:
+                    vio.append(viol(self.ID, "differs_on_second_build_in_same_process", d[0], {"what": d[1], "op": ops[d[0] - 1] if 0 < d[0] <= len(ops) else None, "first": d[2], "second": d[3]}, "same_process"))
+                    break
         # (c) interleaved with unrelated diagrams, (d) after an unrelated prefix
         other_ops = 0
-        for mode in () if sc["params"].get("mode") == "deadpad" else ("interleave", "prefix"):
+        for mode in () if sc["params"].get("mode") in ("deadpad", "scc_repeat") else ("interleave", "prefix"):
             if vio:
                 break
             plan = self.other_plan(sc, ops, mode)
